@@ -266,7 +266,11 @@ var jshapes = []jShape{
 	{name: "ptrs", ptr: func(v any) any { x := v.(jPtrs); return &x }, newp: func() any { return new(jPtrs) },
 		mk: func() any {
 			v := jPtrs{D: vfBool()}
-			switch vfIntIn(0, 3) { // floats: only the omitempty decision is observed (their text is an opaque stub)
+			fsel := 0
+			if vfRT == 0 { // not in round-trip units: float text is an opaque stub that cannot be decoded again
+				fsel = vfIntIn(0, 3)
+			}
+			switch fsel { // floats: only the omitempty decision is observed (their text is an opaque stub)
 			case 1:
 				v.Fl = math.Copysign(0, -1) // negative zero is zero: omitted
 				v.Fs = float32(math.Copysign(0, -1))
